@@ -1797,6 +1797,12 @@ class Norm:
                     return ("try", ("call", "Result::map_err", [scr, ("closure", 1, 1, E)]))
         if len(arms) == 2 and all(g is None for _p, g, _b in arms):
             (p1, _g1, b1), (p2, _g2, b2) = arms
+            unitlike = lambda p: re.fullmatch(r"[A-Za-z_][\w:]*", p) is not None and "::" in p
+            payload = lambda p: re.fullmatch(r"[A-Za-z_][\w:]*\([$_(),]*\)", p) is not None
+            if unitlike(p1) and payload(p2) and p1.rsplit("::", 1)[0] == p2.split("(")[0].rsplit("::", 1)[0]:
+                return self._iflet(p2, scr, b2, b1)      # a two-variant enum: the unit variant is "otherwise"
+            if unitlike(p2) and payload(p1) and p2.rsplit("::", 1)[0] == p1.split("(")[0].rsplit("::", 1)[0]:
+                return self._iflet(p1, scr, b1, b2)
             catch = ("_", "$", "v1::None", "Option::None")
             if p2 in catch and p1 not in catch:
                 return self._iflet(p1, scr, b1, b2)
@@ -2377,6 +2383,8 @@ class Norm:
                 return args[0]       # &str / String -> String, however it is spelled, is the same text
             if name in ("From::from", "Into::into") and len(args) == 1 and _is_int_widening(e, e["args"][0]):
                 return ("cast", peel_ty(e.get("ty", "")), args[0])
+            if name == "ToTokens::to_tokens" and len(args) == 2 and args[0][0] == "tpl" and args[0][1] == "quote":
+                return ("call", "Extend::extend", [args[1], args[0]])     # quote!(..).to_tokens(ts)  ==  ts.extend(quote!(..))
             if name == "FromIterator::from_iter" and len(args) == 1:
                 return ("call", "Iterator::collect", args)          # T::from_iter(it)  ==  it.collect::<T>()
             if name == "__private::must_use" and len(args) == 1:
@@ -2412,6 +2420,8 @@ class Norm:
                     return inl
             recv = self._t(e["recv"])
             args = [self._t(a) for a in e["args"]]
+            if name == "ToTokens::to_tokens" and len(args) == 1 and recv[0] == "tpl" and recv[1] == "quote":
+                return ("call", "Extend::extend", [args[0], recv])     # quote!(..).to_tokens(ts)  ==  ts.extend(quote!(..))
             if name in _TO_STRING and not args and _is_string_conv(e, e["recv"]):
                 return recv
             if name in ("From::from", "Into::into") and not args and _is_int_widening(e, e["recv"]):
@@ -2795,7 +2805,7 @@ def _ret_chain(early, tail):
     def convertible(c, v):
         if c == ("lit", "match"):
             return v[0] == "match" and all(g is None and (_rets(b) or _is_unit(b)) for _p, g, b in v[2])
-        return v[0] == "ret"
+        return _rets(v)
     k = len(early)
     while k > 0 and convertible(*early[k - 1]):
         k -= 1
@@ -2868,15 +2878,18 @@ def _unreturn(t):
     if t[0] == "early":
         res = _unreturn(t[2])
         for c, v in reversed(t[1]):
-            if v[0] == "ret":
+            if _rets(v):
+                val = _unreturn(v)           # `return x`, or `{ effects; return x }`
+                if val[0] == "seq" and _is_unit(val[2]) and len(val[1]) == 1:
+                    val = val[1][0]
                 if c[0] == "iflet-not":
-                    res = _mk_iflet(c[1], c[2], res, _unreturn(v[1]))
+                    res = _mk_iflet(c[1], c[2], res, val)
                 elif c[0] == "iflet":
-                    res = _mk_iflet(c[1], c[2], _unreturn(v[1]), res)
+                    res = _mk_iflet(c[1], c[2], val, res)
                 elif c[0] == "op" and c[1] == "Not" and len(c[2]) == 1:
-                    res = _mk_if(c[2][0], res, _unreturn(v[1]))
+                    res = _mk_if(c[2][0], res, val)
                 else:
-                    res = _mk_if(c, _unreturn(v[1]), res)
+                    res = _mk_if(c, val, res)
             else:
                 return t
         return res
